@@ -495,6 +495,111 @@ def _names_ok(v) -> bool:
     return True
 
 
+# ---------------------------------------------------------------------------
+# whole-line tokenizer (round 4): tok_line of the Coq model vs CPython's tokenizer on the lines
+# mashumaro really generated during the oracle, plus hand-made lines
+# ---------------------------------------------------------------------------
+
+TQ1 = "'" * 3
+TQ2 = '"' * 3
+HAND_LINES = [
+    "x = 'a' # 'b'", "value = d.get('it\\'s', MISSING)", "r'x'", TQ1 + "a" + TQ1, "f(b'x', 'y')", "f(b\"\\xff\")", "'a' 'b'",
+    "x = 1 \\", "kwargs[\"it's\"] = value", "d = {'a': 1, \"b\": 2}", "# only a comment 'x'", "x = ''", "x = '' ''", "bb'x'", "B'x'",
+    "f'{x}'", "u'x'", "x = 'a", "x = \"a'", "if value == 'x\\n':", "    raise ValueError('Argument for m.A should be a dict') from None",
+    "a.b'c'", "x = b''", "x = 1b'c'", "'\\x41\\u00e9\\U0001f600'", "x = b'\\x00' + b\"'\"", "y = 'caf\u00e9'", "'a'#'b'\n'c'",
+]
+
+
+def py_line_literals(text: str):
+    """values of the string / bytes literal tokens of `text` in order, by CPython's tokenizer; None when CPython
+    refuses the text or it uses what the line model does not cover (prefixes other than b, triple quotes,
+    f-strings, backslash continuation outside literals)"""
+    if "\0" in text or any(0xd800 <= ord(c) < 0xe000 for c in text) or "\r" in text:
+        return None
+    toks = []
+    try:
+        with warnings.catch_warnings():
+            warnings.simplefilter("ignore")
+            for t in tokenize.generate_tokens(io.StringIO(text).readline):
+                toks.append(t)
+    except tokenize.TokenError as e:
+        if "EOF in multi-line statement" not in str(e):
+            return None
+    except (SyntaxError, IndentationError):
+        return None
+    out = []
+    fstring = getattr(tokenize, "FSTRING_START", -1)
+    for t in toks:
+        if t.type == fstring or t.type == tokenize.ERRORTOKEN:
+            return None
+        if t.type == tokenize.STRING:
+            i = min(j for j, c in enumerate(t.string) if c in "'\"")
+            pre = t.string[:i]
+            if pre not in ("", "b") or t.string[i:i + 3] in (TQ1, TQ2):
+                return None
+            if t.start[1] > 0 and (t.line[t.start[1] - 1].isalnum() or t.line[t.start[1] - 1] == "_" or ord(t.line[t.start[1] - 1]) >= 128):
+                return None      # a literal glued to a preceding name / number: not modelled
+            try:
+                with warnings.catch_warnings():
+                    warnings.simplefilter("ignore")
+                    v = eval(compile(t.string, "<c16>", "eval"), {"__builtins__": {}}, {})
+            except Exception:
+                return None
+            out.append(v)
+    # an explicit continuation (backslash-newline outside a literal) is not modelled
+    in_strings = "".join(t.string for t in toks if t.type == tokenize.STRING)
+    if text.count("\\\n") + (1 if text.endswith("\\") else 0) > in_strings.count("\\\n"):
+        return None
+    return out
+
+
+def coq_lvals(vs) -> str:
+    if vs is None:
+        return "None"
+    return "Some [" + "; ".join(("VB " + coq_nl(list(v))) if isinstance(v, bytes) else ("VS " + coq_nl(cps(v))) for v in vs) + "]"
+
+
+def line_tie(ctx: vlib.Ctx):
+    rng = ctx.rng
+    n = ctx.budget(700, 6000)
+    lines = set()
+    for code in GENERATED:
+        for ln in code.split("\n"):
+            if ln.strip():
+                lines.add(ln)
+    lines = sorted(lines)
+    quoted = [l for l in lines if "'" in l or '"' in l]
+    plain = [l for l in lines if not ("'" in l or '"' in l)]
+    rng.shuffle(quoted)
+    rng.shuffle(plain)
+    pick = quoted[: n - 60] + plain[:60]
+    whole = sorted(set(GENERATED))          # whole generated functions as multi-line texts, too
+    rng.shuffle(whole)
+    pick += whole[: n // 10]
+    pick += HAND_LINES
+    cases, shown = [], []
+    nlit = 0
+    for t in pick:
+        e = py_line_literals(t)
+        if e:
+            nlit += len(e)
+        cases.append(f"({coq_nl(cps(t))}, {coq_lvals(e)})")
+        shown.append(t)
+        ctx.hist("line_tie", "with-literals" if e else ("rejected/not-modelled" if e is None else "no-literal"))
+    ctx.coverage["line_tie_generated_texts"] = {"captured_programs": len(GENERATED), "distinct_lines": len(lines), "literal_tokens_compared": nlit}
+    bad, log = vlib.coq_bad_idx("c16_line", "PyStrLit PyLine", "", "Local Open Scope N_scope.\n", cases, "line_case_ok",
+                                "list N * option (list lval)", shard=400, needs=["theories/PyLine.vo"])
+    name = "line-tokens-model-vs-cpython-tokenizer (generated lines)"
+    if bad is None:
+        ctx.correspondence(name, len(cases), -1, log)
+        ctx.not_shown("correspondence " + name, log)
+    else:
+        ctx.correspondence(name, len(cases), len(bad), "; ".join(repr(shown[i])[:100] for i in bad[:6]))
+        if bad:
+            ctx.not_shown("correspondence " + name, "; ".join(repr(shown[i])[:120] for i in bad[:6]))
+    ctx.count(n=len(cases))
+
+
 def _corr(ctx, name, imports, defs, cases, okf, ctype, show):
     bad, log = vlib.coq_bad_idx("c16_" + name.split("-vs-")[0].replace("-", "_"), imports, "", defs, cases, okf, ctype,
                                 shard=500, needs=["theories/PyStrLit.vo", "theories/PyLit.vo"])
@@ -870,8 +975,31 @@ def enum_name_ok(s: str) -> bool:
 IDENTS = ["a", "x1", "_x"[1:], "é", "中", "ﬁ", "ª", "camelCase", "x_y", "Āb", "d", "value", "kwargs", "MISSING", "self", "cls"]
 
 
+GENERATED: list = []          # generated source texts captured during the oracle (for the line-tokens tie)
+_REC_INSTALLED = False
+
+
+def install_recorder():
+    """rebind the module-global `exec` of the generator modules to a recording wrapper (no edit of /repo)"""
+    global _REC_INSTALLED
+    if _REC_INSTALLED:
+        return
+    import importlib
+    for mn in ("mashumaro.core.meta.code.builder", "mashumaro.core.meta.types.pack", "mashumaro.core.meta.types.unpack",
+               "mashumaro.core.meta.types.common"):
+        m = importlib.import_module(mn)
+
+        def rec(code, *a, _e=builtins.exec, **k):
+            if isinstance(code, str) and len(GENERATED) < 60000:
+                GENERATED.append(code)
+            return _e(code, *a, **k)
+        m.exec = rec
+    _REC_INSTALLED = True
+
+
 def run_src(src: str):
     """exec the self-contained case; returns (failures, sentinel_hits)"""
+    install_recorder()
     hits = []
     setattr(builtins, SENTINEL, hits)
     name = "c16_case"
@@ -1079,6 +1207,7 @@ def run(ctx: vlib.Ctx):
     lit_tie(ctx)
     broken = bool(ctx.unshown)
     oracle(ctx, boost=broken)
+    line_tie(ctx)
 
 
 def replay(rep: dict) -> int:
